@@ -27,9 +27,10 @@ SNext == Len(hist) < Depth /\ LET op == RandomElement(OpsTab[V.kind]) IN Do(op) 
 SSpec == HInit /\ [][SNext]_<<vars, hist>>
 Bound == Len(hist) <= Depth
 \* quick tier: consecutive calls that share an object -- the same native grid (the arrays a call can have touched are
-\* read again) or the long-lived binner; the identity binner with one stored order.  The thorough tier lifts both
-\* restrictions and adds longer random sequences.
+\* read again) or the long-lived binner; the identity binner with one stored order; bindown only (bin_model is
+\* bindown with derived widths).  The thorough tier lifts the restrictions and adds longer random sequences.
 QuickCut == /\ (V.kind = "native") => V.ord = "mixed"
+            /\ \A i \in 1..Len(hist) : hist[i].api = "bindown"
             /\ \A i \in 1..(Len(hist) - 1) : (hist[i].g = hist[i + 1].g) \/ (hist[i].b = "old" /\ hist[i + 1].b = "old")
 
 \* which design mutants a sequence of calls exposes: some clause fails after some call (or before the first)
